@@ -386,3 +386,28 @@ func (l rloop) iterationSkipsAssuming(must func(ssa.Instruction) bool, assume ma
 	}
 	return false
 }
+
+// blockJustified: a fact satisfying ok dominates b, or every edge into b carries one
+// (recursively through predecessors). Used for `a || b`-style joins.
+func blockJustified(b *ssa.BasicBlock, ok func(Fact) bool, depth int) bool {
+	for _, f := range condFacts(b) {
+		if ok(f) {
+			return true
+		}
+	}
+	if depth == 0 || len(b.Preds) == 0 {
+		return false
+	}
+	for _, pr := range b.Preds {
+		edgeOK := false
+		for _, f := range edgeFacts(pr, b) {
+			if ok(f) {
+				edgeOK = true
+			}
+		}
+		if !edgeOK && !blockJustified(pr, ok, depth-1) {
+			return false
+		}
+	}
+	return true
+}
